@@ -212,6 +212,10 @@ func judge(sp Spec, res Result) ([]Finding, judgeStats) {
 				in += "+" + n
 				hinted = ":answer-carries-" + n
 			}
+			if s.Beh.Body != "" {
+				// part a2: the class is that of the status code, whatever becomes of the answer's body afterwards
+				in += "+body-" + s.Beh.Body
+			}
 			if slow := time.Duration(s.Beh.SlowMS) * time.Millisecond; slow > rc.Timeout {
 				// no answer within the target's own timeout: a timeout, whatever would have arrived later
 				cls, in = "retryable", in+"~later-than-timeout"
@@ -622,6 +626,46 @@ func (c *checker) partA() {
 	}
 }
 
+// partA2: the classification table once more over the real HTTPDeliverer, with every fate of the answer's BODY after
+// the status line and the headers have arrived (bodyShapes): every status code 100-599 x body shape x attempt number.
+// Same cases in both tiers.
+func (c *checker) partA2() {
+	r := c.r
+	n := 0
+	for _, max := range []int{1, 2} {
+		tg := Tgt{Path: "/hook", Max: strconv.Itoa(max), Base: "1m", Cap: "4m", Jitter: "0", Timeout: "1s"}
+		for attempt := 1; attempt <= max+2; attempt++ {
+			for code := 100; code <= 599; code++ {
+				for _, shape := range bodyShapes {
+					if c.expired() {
+						return
+					}
+					b := st(code)
+					b.Body = shape
+					sp := Spec{Part: "a2", Store: "memory", Targets: []Tgt{tg}, Conc: 1, HTTP: true, U: 0.5, StopAfter: 1,
+						Msgs: []Msg{{ID: "m", Target: tg.URL(), PreAttempts: attempt - 1, Script: []Beh{b}}}}
+					res := c.run(sp)
+					r.Add("a2_histories_with_a_body_shape", 1)
+					if n%3911 == 17 {
+						c.sample(sp, res, 1)
+					}
+					n++
+				}
+			}
+		}
+	}
+	r.Set("a2_body_shapes", len(bodyShapes))
+	// a whole life: the body shapes mixed with plain answers along one message's retries
+	shaped := func(code int, shape string) Beh { b := st(code); b.Body = shape; return b }
+	alpha := []Beh{st(200), st(503), shaped(200, "short"), shaped(200, "err0"), shaped(503, "reset"), shaped(404, "short"), shaped(429, "garbled"), shaped(302, "short")}
+	tg := Tgt{Path: "/hook", Max: "2", Base: "2s", Cap: "2m", Jitter: "0.2", Timeout: "1s"}
+	e := c.enumerate(alpha, 4, func(script []Beh) Spec {
+		return Spec{Part: "a3", Store: "memory", Targets: []Tgt{tg}, Conc: 1, HTTP: true, U: 0.5,
+			Msgs: []Msg{{ID: "m", Target: tg.URL(), Script: script}}}
+	})
+	r.Add("a3_distinct_histories", int64(len(e)))
+}
+
 // ---- (b) delay bounds over the compile-accepted grid -------------------------
 
 func (c *checker) partB() {
@@ -1006,7 +1050,7 @@ func TestCheck(t *testing.T) {
 	for _, part := range []struct {
 		name string
 		f    func()
-	}{{"a", c.partA}, {"b", c.partB}, {"i", c.partI}, {"j", c.partJ}, {"h", c.partH}, {"g", c.partG}, {"f", c.partF}, {"c", c.partC}, {"d", c.partD}, {"e", c.partWire}} {
+	}{{"a", c.partA}, {"a2", c.partA2}, {"b", c.partB}, {"i", c.partI}, {"j", c.partJ}, {"h", c.partH}, {"g", c.partG}, {"f", c.partF}, {"c", c.partC}, {"d", c.partD}, {"e", c.partWire}} {
 		if only := os.Getenv("VERIF_C06_ONLY"); only != "" && !strings.Contains(","+only+",", ","+part.name+",") {
 			r.NotExhaustive("VERIF_C06_ONLY=" + only + ": part " + part.name + " skipped (development aid)")
 			continue
@@ -1046,6 +1090,7 @@ func TestCheck(t *testing.T) {
 	r.Assume("part (g): an answer that arrives later than the target's own timeout counts as a timeout (retryable) whatever its status; answer delays {300ms, 1s, 5s} never coincide with a timeout of the grid")
 	r.Assume("part (h): which places a policy refuses is written by hand next to the rule (redirPolicy.Refused), never computed from the policy; under redirects on a 301/302/303/307/308 whose Location the policy refuses must end dead policy_denied by that attempt (statement + docs: every hop is checked like the target) and the refused place is never requested; " +
 		"a 3xx that is not followed (redirects off, no/unusable Location, a status that is no redirect instruction, a loop cut off by the client) is judged as the statement judges a 3xx: never success, retried only while attempt <= retry.max, dead only with a reason - whether an ALLOWED hop is followed at all, with which method and body, and where a loop is cut (observed: 10 requests) is not C06's business; no TLS: https places exist only as URLs of the in-memory network")
+	r.Assume("part (a2): the answer's status line and headers have arrived; what the body does afterwards is one of " + strings.Join(bodyShapes, ", ") + " (in-memory transport: every status code; real sockets, part e1: a body shorter than its Content-Length and a chunked body without terminator, each ended by an orderly close - a reset right after the headers is not deterministic on a real socket and is enumerated in memory only); the class is that of the status code (statement: 2xx acks, other 4xx no_retry, ...); a body that stays silent beyond the target's timeout is not enumerated (the statement does not say whether that is a timeout or a 2xx)")
 	r.Assume("part (i): one extra header line per answer (Retry-After in both syntaxes, three rate-limit reset headers), in-memory transport only; hints in the answer body or through the real-socket part (e) are not enumerated; HTTP dates are relative to the bubble's virtual clock (2000-01-01T00:00:00Z)")
 	r.Assume("part (j): prune_interval and the smallest max_age of the oracle are read from the written retention blocks, else the documented defaults (7d / 5m, dlq 30d / 10000, delivered off); the idle phase (3 or 5 steps of prune_interval+1s, less than half of any max_age) starts after Drain and consists of an idle worker poll, a DLQ listing and a backlog listing per step; what may disappear once a max_age has passed is not judged here")
 	r.Assume("part (f): the other traffic is not judged message by message, only that all of it ends delivered or dead-lettered; whether the store's internal thresholds were actually crossed is not observable from outside (the sizes are chosen above the memory store's 1024-entry order-list compaction threshold); with two workers the interleaving of judged and other messages is the Go scheduler's")
